@@ -17,6 +17,7 @@ struct Built
     std::vector<std::vector<libcellml::VariablePtr>> varAt;
     std::vector<std::vector<libcellml::ResetPtr>> resetAt;
     std::vector<libcellml::VariablePtr> loose; // parentless variables kept alive by the harness
+    std::vector<libcellml::ComponentPtr> extra; // components added by a preparation
     std::vector<libcellml::ModelPtr> libs; // library models attached to import sources (C04 resolved imports)
     std::map<std::pair<std::string, std::string>, libcellml::ImportSourcePtr> imports; // (url, id)
     libcellml::ImportSourcePtr importSource(const std::string &url, const std::string &id);
